@@ -9,7 +9,7 @@ from findings import c08_common as W
 
 IMPORTS = "From Ford Require Import Base.Str Sem.Calls Sem.CallsSpec Corr.C08."
 THEOREMS = ["C08_strip_levels", "C08_strip_levels_stmt", "C08_keywords_filtered", "C08_literals_inert",
-            "C08_literals_any_body", "C08_raw", "C08_raw_call", "C08_once", "C08_format_goto_inert",
+            "C08_literals_any_body", "C08_raw", "C08_raw_segs", "C08_once", "C08_format_inert",
             "C08_exact", "C08_refuted_unresolved_array", "C08_refuted_same_last", "C08_refuted_intrinsic_named",
             "C08_refuted_labelled_call", "C08_refuted_format_nospace", "C08_refuted_assoc_expr",
             "C08_refuted_assoc_crash", "C08_refuted_goto"]
@@ -18,7 +18,7 @@ REGION_KEYS = {1: "unresolved-array", 2: "same-last-component", 3: "intrinsic-na
                7: "sibling-variable-hides-procedure", 8: "associate-function-selector-crash",
                9: "goto-pattern-unanchored"}
 RE_TYPE = "str * list str * option str * (bool * bool * bool) * option str * str"
-UNIT_TYPE = "symtab * symtab * list str * option (list str) * option (list stmt)"
+UNIT_TYPE = "symtab * symtab * list str * option (list str) * option (list stmt) * bool"
 
 
 def cstr(x):
@@ -177,21 +177,48 @@ KNOB_SETS = [{}, {}, {}, {"shadow": True}, {"unknown_array": True}, {"intrinsic_
              {"goto_expr": True}, {"shadow": True, "p_label": 0.2}]
 
 
-def unit_term(tb_ford, tb_true, srcs, impl, asts):
+def unit_term(tb_ford, tb_true, srcs, impl, asts, strict=True):
     a = "None" if asts is None else "(Some " + coq_list(G.c_stmt(s) for s in asts) + ")"
     i = coq_opt(impl, lambda o: coq_list(cstr(c) for c in o))
-    return f"({G.c_symtab(tb_ford)}, {G.c_symtab(tb_true)}, {coq_list(cstr(s) for s in srcs)}, {i}, {a})"
+    return (f"({G.c_symtab(tb_ford)}, {G.c_symtab(tb_true)}, {coq_list(cstr(s) for s in srcs)}, {i}, {a}, "
+            f"{coq_bool(strict)})")
+
+
+def respace(rng, text):
+    """blanks Fortran ignores: between a name and '(', around '%' (outside character literals)"""
+    out, q = [], None
+    for i, ch in enumerate(text):
+        if q:
+            out.append(ch)
+            if ch == q:
+                q = None
+            continue
+        if ch in "'\"":
+            q = ch
+            out.append(ch)
+            continue
+        if ch == "(" and i and (text[i - 1].isalnum() or text[i - 1] == "_") and rng.random() < 0.3:
+            out.append(" " * rng.choice([1, 1, 2]))
+        if ch == "%" and rng.random() < 0.3:
+            out.append(" % " if rng.random() < 0.5 else "% ")
+            continue
+        out.append(ch)
+    return "".join(out)
 
 
 def end_to_end(chk, rng, nproj):
     cases = []
-    stats = {"projects": 0, "units": 0, "ford_errors": 0, "stmts": 0}
+    stats = {"projects": 0, "units": 0, "ford_errors": 0, "stmts": 0, "respaced_projects": 0}
     for k in range(nproj):
         knobs = dict(rng.choice(KNOB_SETS))
         proj = G.gen_project(rng, knobs)
+        strict = rng.random() < 0.75
+        if not strict:
+            knobs["respace"] = lambda text, _r=rng: respace(_r, text)
         files = G.render_project(rng, proj, knobs)
         err, res = I.run_project(files)
         stats["projects"] += 1
+        stats["respaced_projects"] += not strict
         if err:
             stats["ford_errors"] += 1
             chk.violation("failing-input", {"what": "FORD raised on a generated project", "error": err, "files": files,
@@ -204,26 +231,27 @@ def end_to_end(chk, rng, nproj):
                 continue
             tb_true = G.truth_table(proj, mod, unit, host)
             tb_ford = r["tab"] or tb_true
-            srcs = [G.r_stmt(s) for s in unit["body"]]
+            srcs = list(unit.get("srcs") or [G.r_stmt(s) for s in unit["body"]])
             if unit["kind"] == "function":
                 srcs = srcs + [f"{unit['name']} = 1"]
                 asts = unit["body"] + [("form", None, True, ("FAssign", G.name(unit["name"]), G.lit("1")))]
             else:
                 asts = unit["body"]
-            cases.append((path, tb_ford, tb_true, srcs, r["calls"], asts, files, knobs))
+            cases.append((path, tb_ford, tb_true, srcs, r["calls"], asts, files,
+                          {k: v for k, v in knobs.items() if k != "respace"}, strict))
             stats["units"] += 1
             stats["stmts"] += len(srcs)
             chk.count(("unit", tuple(srcs)), nontrivial=bool(r["calls"]),
                       sample={"unit": ".".join(path), "statements": srcs[:6], "calls": r["calls"]}
                       if len(chk.samples) < 5 and r["calls"] else None)
-    terms = [unit_term(c[1], c[2], c[3], c[4], c[5]) for c in cases]
+    terms = [unit_term(c[1], c[2], c[3], c[4], c[5], c[8]) for c in cases]
     res = chk.coq_judge(IMPORTS, UNIT_TYPE, "judge_unit", terms, shard=12)
     region_hits = {}
     if res is not None:
         chk.traces += len(cases)
         shown = 0
         for idx, code in sorted(res.items()):
-            path, tb_ford, tb_true, srcs, calls, asts, files, knobs = cases[idx]
+            path, tb_ford, tb_true, srcs, calls, asts, files, knobs, strict = cases[idx]
             payload = {"unit": ".".join(path), "statements": srcs, "impl": calls, "code": code, "knobs": knobs, "files": files}
             if code >= 1024:
                 chk.obligation("renderer-agrees-with-coq", False, f"unit {path}: {srcs}")
@@ -240,6 +268,15 @@ def end_to_end(chk, rng, nproj):
                 else:
                     chk.violation("failing-input", dict(payload, what="recorded calls differ from the user procedures the "
                                                                        "unit invokes", region=region), True)
+    # how many units lie inside the hypothesis of C08_exact (evaluated in Coq with the true tables)
+    rterms = [f"({G.c_symtab(c[2])}, {coq_list(cstr(s) for s in c[3])}, {coq_list(G.c_stmt(s) for s in c[5])})"
+              for c in cases if c[8]]
+    rres = chk.coq_judge(IMPORTS, "symtab * list str * list stmt", "judge_resolvable", rterms, shard=12)
+    if rres is not None:
+        stats["units_resolvable"] = sum(1 for v in rres.values() if v == 1)
+        bad = [i for i, v in rres.items() if v == 2]
+        if bad:
+            chk.obligation("exactness-conclusion-on-resolvable-units", False, str(cases[bad[0]][3]))
     chk.extra["end_to_end"] = stats
     chk.extra["known_region_cases"] = region_hits
 
@@ -251,7 +288,8 @@ def replay_findings(chk):
 
 def run(chk):
     chk.translate(["t1_intrinsics.py"])
-    chk.build(["theories/Corr/C08.vo", "theories/Props/C08.vo"])
+    chk.build(["theories/Corr/C08.vo"])      # the judge needs the definitions only: it still runs when a proof breaks
+    chk.build(["theories/Props/C08.vo"])
     chk.props("theories/Props/C08.v", THEOREMS)
     quick = chk.tier == "quick"
     granular(chk, chk.rng, quick)
